@@ -30,7 +30,8 @@ What is proved, and how strongly.
 The `def`s of this file are statement vocabulary only (`entryOf`, `Truth`, `Encodes`, `SafeStep`, `Recovered`,
 the witness history and its metric).
 -/
-import Rs1090.Proofs.CprStateSound
+import Rs1090.Proofs.CprStateInv
+import Rs1090.Proofs.CprStateKin
 namespace Rs1090.Props.C06
 open Rs1090 Rs1090.Model.Cpr Rs1090.Model.CprState Rs1090.Spec.Cpr Rs1090.Proofs.Cpr Rs1090.Proofs.CprState
 
@@ -412,6 +413,226 @@ theorem sound_partial (dist : Pos → Pos → Rat) (upd : Option (Report → Boo
   rw [List.getElem?_append_right (by omega), hl, Nat.sub_self, List.getElem?_cons_zero] at h
   have h' := Option.some.inj h
   exact sound_step dist upd _ _ r t henc hsafe p h'
+
+/-! ### whole histories: the cache invariant and "never a wrong position" by induction -/
+
+/-- a history together with, for every report, the true position of its aircraft when the report was ENCODED
+    (format, latitude, longitude on any turn).  The list order is the order of DELIVERY to the decoder; the
+    recorded time stamp `ts` of a report is whatever the receiver wrote — nothing relates it to the encoding
+    time except `Kin` below. -/
+abbrev History := List (Report × Truth)
+
+/-- **The cache invariant** (no kinematics, no assumption on the contents of the reports; `α` = any
+    annotation of the reports).  After ANY history from the empty cache, with or without an
+    `update_reference` callback:
+    * every parity slot of every entry holds an earlier report of the same address — airborne, of that
+      parity — and the slot's time stamp is that report's recorded time stamp;
+    * `pos`, when present, is the position that was ATTACHED to an earlier report of the same address whose
+      recorded time stamp is `timestamp`;
+    * the receiver reference is the initial one, or — with a callback `f` only — the position attached to an
+      earlier airborne report (of any address) on which `f` answered `true`; with `update_reference = None`
+      it is the initial one (`reference_fixed`). -/
+theorem cache_invariant {α : Type} (dist : Pos → Pos → Rat) (upd : Option (Report → Bool))
+    (reference : Option Pos) (H : List (Report × α)) :
+    CacheInv (logOf Gates.source dist upd (Cache.empty, reference) H)
+      (runState Gates.source dist upd (Cache.empty, reference) (H.map Prod.fst)).1 ∧
+    RefInv upd reference (logOf Gates.source dist upd (Cache.empty, reference) H)
+      (runState Gates.source dist upd (Cache.empty, reference) (H.map Prod.fst)).2 :=
+  inv_run Gates.source source_gates_literal dist upd reference H
+
+/-- with `update_reference = None` the receiver reference never changes, whatever the history -/
+theorem reference_fixed {α : Type} (dist : Pos → Pos → Rat) (reference : Option Pos) (H : List (Report × α)) :
+    (runState Gates.source dist none (Cache.empty, reference) (H.map Prod.fst)).2 = reference := by
+  rcases (cache_invariant dist none reference H).2 with h | ⟨_, _, f, _, hf, _⟩
+  · exact h
+  · cases hf
+
+/-- every report of the history carries the DO-260B encoding of its true position -/
+def EncodesAll (H : History) : Prop := ∀ x ∈ H, Encodes x.1 x.2
+
+/-- the lattice point the encoder expects a receiver to recover from a report (a function of the kind of the
+    report and of its true position only; longitude on the turn of the true longitude) -/
+def latticeOf (x : Report × Truth) : Pos :=
+  match x.1.kind with
+  | .surface => ⟨rlat 19 x.2.i x.2.lat, rlon 19 x.2.i (rlat 19 x.2.i x.2.lat) x.2.lon⟩
+  | _ => ⟨rlat 17 x.2.i x.2.lat, rlon 17 x.2.i (rlat 17 x.2.i x.2.lat) x.2.lon⟩
+
+/-- the point `q` is inside the near box of the report `y` (strictly within half an airborne zone / half a
+    quarter surface zone of `y`'s lattice point, longitude on a suitable turn) -/
+def NearOf (y : Report × Truth) (q : Pos) : Prop :=
+  match y.1.kind with
+  | .airborne => NearBox 17 y.2.i 1 y.2.lat y.2.lon q
+  | .surface => NearBox 19 y.2.i 4 y.2.lat y.2.lon q
+  | .other => True
+
+/-- the true positions of two airborne reports are inside the pair box of `global_correct_two_points`:
+    at most 12/295 ° of latitude apart and, when their recovered latitudes lie in the same band `NL`, at most
+    `144/(NL(NL−1))` ° of longitude apart on a suitable turn -/
+def PairOf (x y : Report × Truth) : Prop :=
+  |x.2.lat - y.2.lat| ≤ 12 / 295 ∧
+  (NL (rlat 17 x.2.i x.2.lat) = NL (rlat 17 y.2.i y.2.lat) → ∃ k : ℤ,
+    (NL (rlat 17 y.2.i y.2.lat) : ℚ) * ((NL (rlat 17 y.2.i y.2.lat) : ℚ) - 1)
+      * |x.2.lon + 360 * k - y.2.lon| ≤ 144)
+
+/-- what `Kin` asks of a report `x` delivered BEFORE a report `y`.  Only true positions, kinds, formats,
+    addresses, RECORDED time stamps (and the answer of the caller's `update_reference` closure) occur — never
+    the state of the decoder.
+    Same aircraft:
+    * both airborne, of opposite formats, `0 ≤ y.ts − x.ts < 10` (the out-of-order guard and the pairing
+      window of the source) ⇒ pair box;
+    * `x` a position report, `y.ts − x.ts < 180` — NEGATIVE differences included, the source has no lower
+      bound there — ⇒ `x`'s lattice point is inside `y`'s near box.
+    Any two aircraft, only with an `update_reference` callback `f`: `x` airborne with `f x = true`, `y` a
+    surface report ⇒ `x`'s lattice point is inside `y`'s near box (the reference may have been moved there). -/
+def KinRel (upd : Option (Report → Bool)) (x y : Report × Truth) : Prop :=
+  (x.1.addr = y.1.addr →
+    (x.1.kind = .airborne → y.1.kind = .airborne → x.2.i ≠ y.2.i →
+      0 ≤ y.1.ts - x.1.ts → y.1.ts - x.1.ts < 10 → PairOf x y) ∧
+    (x.1.kind ≠ .other → y.1.ts - x.1.ts < 180 → NearOf y (latticeOf x))) ∧
+  (∀ f, upd = some f → f x.1 = true → x.1.kind = .airborne → y.1.kind = .surface → NearOf y (latticeOf x))
+
+/-- **The kinematic hypothesis** on a history — state-independent: `KinRel` for every pair (earlier
+    delivered, later delivered), and every surface report has the initial receiver reference, if there is
+    one, inside its near box.
+
+    Time stamps.  `Kin` is stated on the RECORDED time stamps, the only ones the decoder sees; the true
+    positions are those at the ENCODING times.  So a disorder of the stamps (exchanged stamps, swapped
+    delivery, a duplicate stamped later, late delivery) is admitted exactly when the boxes still hold for
+    the recorded differences.  At ≤ 700 kt (0.36 km/s) the pair box (≥ 4.5 km) leaves 2.5 s and the near
+    boxes (airborne ≥ 300 km; surface ≥ 81 km against 65 km in 180 s) leave ≥ 45 s of total stamp error;
+    the harness exchanges stamps / swaps deliveries of neighbours less than 1.5 s apart and stamps
+    duplicates up to 0.3 s later.  Outside it the decoder CAN attach a wrong position:
+    `disorder_outside_kin`. -/
+def Kin (upd : Option (Report → Bool)) (reference : Option Pos) (H : History) : Prop :=
+  H.Pairwise (KinRel upd) ∧
+  ∀ y ∈ H, y.1.kind = .surface → ∀ rf, reference = some rf → NearOf y rf
+
+/-- the near box of `y` holds for every point recovered from `x` (longitude on any turn) as soon as it holds
+    for `x`'s lattice point -/
+theorem near_of_recovered (x y : Report × Truth) (lp : Pos) (h : NearOf y (latticeOf x))
+    (hr : Recovered x.1 x.2 lp) : NearOf y lp := by
+  unfold NearOf at h ⊢
+  unfold latticeOf at h
+  unfold Recovered at hr
+  cases hx : x.1.kind <;> cases hy : y.1.kind <;> simp only [hx, hy] at h hr ⊢ <;>
+    first
+      | exact nearBox_of_isLattice h hr
+      | exact hr.elim
+
+/-- **Never a wrong position — whole histories** (log form; `sound` reads it by index).  By induction over
+    the history: the cache invariant turns the decoder's state into earlier reports and earlier OUTPUTS, the
+    induction hypothesis makes those outputs lattice points of their own true positions, `Kin` puts them
+    inside the safe boxes, and `sound_step` concludes. -/
+theorem sound_log (dist : Pos → Pos → Rat) (upd : Option (Report → Bool)) (reference : Option Pos)
+    (H : History) (henc : EncodesAll H) (hkin : Kin upd reference H) :
+    ∀ y ∈ logOf Gates.source dist upd (Cache.empty, reference) H, ∀ p, y.2 = some p →
+      Recovered y.1.1 y.1.2 p := by
+  apply logOf_forall Gates.source dist upd (Cache.empty, reference)
+    (fun y => ∀ p, y.2 = some p → Recovered y.1.1 y.1.2 p) H
+  intro pre x post hH hpre p hp
+  simp only at hp ⊢
+  obtain ⟨hc, hr⟩ := cache_invariant dist upd reference pre
+  generalize hst : runState Gates.source dist upd (Cache.empty, reference) (pre.map Prod.fst) = st
+    at hc hr hp
+  obtain ⟨c, ref⟩ := st
+  simp only at hc hr
+  have hxH : x ∈ H := by rw [hH]; simp
+  have hrel : ∀ a ∈ pre, KinRel upd a x := by
+    have h := hkin.1
+    rw [hH, List.pairwise_append] at h
+    intro a ha
+    exact h.2.2 a ha x List.mem_cons_self
+  have hex := henc x hxH
+  refine sound_step dist upd c ref x.1 x.2 hex ?_ p hp
+  have hE : EntryInv (logOf Gates.source dist upd (Cache.empty, reference) pre) x.1.addr (entryOf c x.1) :=
+    EntryInv.getD hc x.1
+  -- the last position, when young enough, is inside the near box of `x`
+  have hlast : ∀ lp, (entryOf c x.1).pos = some lp → x.1.ts - (entryOf c x.1).timestamp < 180 →
+      NearOf x lp := by
+    intro lp hlp h180
+    obtain ⟨y, hy, ha, hts, hout⟩ := hE.pos lp hlp
+    have hrec := hpre y hy lp hout
+    have hk' : y.1.1.kind ≠ .other := by
+      intro h; unfold Recovered at hrec; rw [h] at hrec; exact hrec
+    have hy' : y.1 ∈ pre := (List.of_mem_zip hy).1
+    exact near_of_recovered y.1 x lp (((hrel y.1 hy').1 ha).2 hk' (by rw [hts]; exact h180)) hrec
+  unfold SafeStep
+  cases hk : x.1.kind with
+  | other => trivial
+  | airborne =>
+    simp only
+    have hlast' := hlast
+    unfold NearOf at hlast'
+    simp only [hk] at hlast'
+    refine ⟨?_, hlast'⟩
+    intro o ho h10
+    have hguard := ((emitted_iff_airborne dist upd c ref x.1 hk p).1 hp).1
+    obtain ⟨y, hy, ha, hky, hmsg, hpar, hts⟩ := hE.other _ o ho
+    have hy' : y.1 ∈ pre := (List.of_mem_zip hy).1
+    obtain ⟨hiy, hry, hmy⟩ := henc y.1 (by rw [hH]; exact List.mem_append_left _ hy')
+    rw [hky] at hmy
+    simp only at hmy
+    obtain ⟨hix, hrx, hmx⟩ := hex
+    rw [hk] at hmx
+    simp only at hmx
+    have hne : y.1.2.i ≠ x.2.i := by
+      intro h
+      apply hpar
+      rw [← hmsg, hmy, hmx, report_parity, report_parity, h]
+    have hpo := ((hrel y.1 hy').1 ha).1 hky hk hne (by rw [hts]; exact hguard) (by rw [hts]; exact h10)
+    rw [← hmsg, hmy]
+    exact pairBox_of_deg x.2.i y.1.2.i (by omega) x.2.lat x.2.lon y.1.2.lat y.1.2.lon hry hpo.1 hpo.2
+  | surface =>
+    simp only
+    have hlast' := hlast
+    unfold NearOf at hlast'
+    simp only [hk] at hlast'
+    refine ⟨hlast', ?_⟩
+    intro rf hrf
+    have goal : NearOf x rf := by
+      rcases hr with h | ⟨z, hz, f, p', hupd, hf, hkz, hout, href⟩
+      · exact hkin.2 x hxH hk rf (by rw [← h]; exact hrf)
+      · have hz' : z.1 ∈ pre := (List.of_mem_zip hz).1
+        have hrec := hpre z hz p' hout
+        have e : rf = p' := by rw [href] at hrf; exact (Option.some.inj hrf).symm
+        subst e
+        exact near_of_recovered z.1 x _ ((hrel z.1 hz').2 f hupd hf hkz hk) hrec
+    unfold NearOf at goal
+    simp only [hk] at goal
+    exact goal
+
+/-- **Never a wrong position** (clause 1 of the property, as a theorem about WHOLE histories).  For every
+    history `H` (any number of aircraft, any interleaving, losses, duplicates, gaps, recorded time stamps
+    whatsoever), with or without an `update_reference` callback, any distance function, any initial receiver
+    reference: if every report carries the encoding of its aircraft's true position (`EncodesAll`) and the
+    true positions satisfy the state-independent kinematic hypothesis `Kin`, then every position the batch
+    decoder attaches to the `k`-th report IS the lattice point `(Rlat, Rlon + 360·n)` of that report's own true
+    position — which `recovered_close_*` (C04/C05) place within half a quantisation step of it per axis
+    (≤ 2.6 m airborne, ≤ 0.7 m surface; the conversion of degrees to metres is checked by the harness only).
+    The 50 km plausibility gate and the 1 km surface continuity test need nothing: they only remove positions.
+
+    What remains OUTSIDE Lean: that aircraft flying at ≤ 700 kt whose time stamps are disordered only
+    locally (see `Kin`), with the receiver within 40 NM of every surface report, satisfy `Kin` (`KinDeg`) —
+    spherical kinematics, established by the simulation of the harness only. -/
+theorem sound (dist : Pos → Pos → Rat) (upd : Option (Report → Bool)) (reference : Option Pos)
+    (H : History) (henc : EncodesAll H) (hkin : Kin upd reference H)
+    (k : ℕ) (x : Report × Truth) (p : Pos) (hx : H[k]? = some x)
+    (h : (decodePositions Gates.source dist upd reference (H.map Prod.fst))[k]? = some (some p)) :
+    Recovered x.1 x.2 p :=
+  sound_log dist upd reference H henc hkin (x, some p)
+    (logOf_getElem? Gates.source dist upd (Cache.empty, reference) H k x (some p) hx h) p rfl
+
+/-- … and what the cache holds, with the truths: after any such history the last position of an entry, when
+    present, is the lattice point (longitude on some turn) of the true position of an earlier report of
+    that address whose recorded time stamp is the entry's `timestamp`. -/
+theorem cache_positions_sound (dist : Pos → Pos → Rat) (upd : Option (Report → Bool))
+    (reference : Option Pos) (H : History) (henc : EncodesAll H) (hkin : Kin upd reference H)
+    (A : Address) (e : AircraftState)
+    (he : (runState Gates.source dist upd (Cache.empty, reference) (H.map Prod.fst)).1 A = some e)
+    (lp : Pos) (hlp : e.pos = some lp) :
+    ∃ x ∈ H, x.1.addr = A ∧ x.1.ts = e.timestamp ∧ Recovered x.1 x.2 lp := by
+  obtain ⟨y, hy, ha, hts, hout⟩ := ((cache_invariant dist upd reference H).1 A e he).pos lp hlp
+  exact ⟨y.1, (List.of_mem_zip hy).1, ha, hts, sound_log dist upd reference H henc hkin y hy lp hout⟩
 
 /-! ### the defect that was repaired, and interference through `update_reference` -/
 
